@@ -55,21 +55,25 @@ CutOk(c, p, baseOk) ==
   /\ c.kind = "value" =>
        IF c.val.kind = "value" THEN PrefixOf(c.val, p) ELSE baseOk /\ c.hdr /\ c.pre
 
+\* the track-level entry points (ReadTracksFrom / ReadTracks + Do) on the same bytes: they may succeed or report an error,
+\* they may not panic or hang ("n/a": no temporary file could be made)
+TrClean(x) == x \in {"ok", "error", "n/a"}
 JudgeCut(e) ==
   LET p == Decode(e.bytes) IN
   IF p.kind # "value"
     THEN [ok |-> FALSE, info |-> [id |-> e.id, ev |-> "cut", genbug |-> TRUE, parse |-> p.err]]
     ELSE LET baseOk == SameValue(e.base, p.fmt, p.div, p.tracks)
              badc == SelectSeq(e.cuts, LAMBDA c : ~CutOk(c, p, baseOk))
-         IN [ok |-> badc = <<>>,
-             info |-> [id |-> e.id, ev |-> "cut", genbug |-> FALSE, baseOk |-> baseOk, nbad |-> Len(badc),
+         IN [ok |-> badc = <<>> /\ TrClean(e.tr) /\ TrClean(e.trfile),
+             info |-> [id |-> e.id, ev |-> "cut", genbug |-> FALSE, baseOk |-> baseOk, nbad |-> Len(badc), tr |-> e.tr, trfile |-> e.trfile,
                        first |-> IF badc = <<>> THEN <<>> ELSE
                                  <<[k |-> badc[1].k, kind |-> badc[1].kind, msg |-> badc[1].msg, alloc |-> badc[1].alloc,
                                     hdr |-> badc[1].hdr, pre |-> badc[1].pre, counts |-> badc[1].counts]>>]]
 
 JudgeAny(e) ==
-  [ok |-> e.kind \in {"error", "value"} /\ AllocOk(e.alloc, e.len),
-   info |-> [id |-> e.id, ev |-> "any", kind |-> e.kind, msg |-> e.msg, alloc |-> e.alloc, len |-> e.len, src |-> e.src]]
+  [ok |-> e.kind \in {"error", "value"} /\ AllocOk(e.alloc, e.len) /\ TrClean(e.tr) /\ TrClean(e.trfile),
+   info |-> [id |-> e.id, ev |-> "any", kind |-> e.kind, msg |-> e.msg, alloc |-> e.alloc, len |-> e.len, src |-> e.src,
+             tr |-> e.tr, trfile |-> e.trfile]]
 
 JudgeSched(e) ==
   LET badr == SelectSeq(e.runs, LAMBDA r : ~r.same) IN
@@ -80,8 +84,8 @@ JudgeSched(e) ==
 \* fault modes: "short" / "next" fail for good at offset k; "once" fails exactly one write and then recovers -- still an error
 JudgeWFault(e) ==
   LET badf == SelectSeq(e.faults, LAMBDA f : ~(f.pan = "" /\ (f.k < e.total => f.err) /\ (~f.err => f.size = f.got))) IN
-  [ok |-> ~e.okerr /\ e.oksize = e.total /\ badf = <<>>,
-   info |-> [id |-> e.id, ev |-> "wfault", total |-> e.total, okerr |-> e.okerr, oksize |-> e.oksize, nbad |-> Len(badf),
+  [ok |-> ~e.okerr /\ e.oksize = e.total /\ badf = <<>> /\ e.devfull \in {"err", "n/a"},
+   info |-> [id |-> e.id, ev |-> "wfault", total |-> e.total, okerr |-> e.okerr, oksize |-> e.oksize, nbad |-> Len(badf), devfull |-> e.devfull,
              first |-> IF badf = <<>> THEN <<>> ELSE <<badf[1]>>]]
 
 JudgeRFault(e) ==
